@@ -3,6 +3,7 @@ From Coq Require Import Bool ZArith List.
 From K Require Import Lib.Types Model.Machine Model.Alu Model.Exec Spec.ISA Proofs.FlagProofs.
 From K Require Import Model.Bus Model.Cost Model.Addressing Spec.MemMap Proofs.RegProofs Proofs.StackProofs Proofs.MemProofs Proofs.CtlProofs.
 From K Require Import Proofs.StepProofs Proofs.StepRefines Proofs.StepRefinesCtl.
+From K Require Import Proofs.StepRefines2.
 Open Scope Z_scope.
 
 (* the 16 x 256 condition table *)
@@ -182,6 +183,18 @@ Theorem step_rts :
     step s = Ok n (set_opc (pc s) s').
 Proof. exact step_rts_proof. Qed.
 
+(* JSR @@aa:8 (the pushed frame does not overwrite the vector) *)
+Theorem step_jsr_ind :
+  forall s w w1 w2 w3 w4 aa n s',
+    cpu_ok s -> bus_bytes_ok s -> fault s = false -> pc s mod 2 = 0 -> 0 <= pc s -> pc s + 2 < 4294967296 ->
+    mem_read SW s (pc s) = Some w ->
+    decode_ref w w1 w2 w3 w4 = Some (IJsr (JInd aa), 2) ->
+    (forall s1, push32 s (pc s + 2) = Some s1 -> bus_bytes_ok s1 /\ mem_read SL s1 aa = mem_read SL s aa) ->
+    sem_ref (IJsr (JInd aa)) 2 s = Some s' ->
+    (i <- cs KI 2 ;; j <- csa KJ 2 aa ;; k <- csa KK 2 ((reg32 s 7 - 4) mod A24) ;; ret (u8add (u8add i j) k)) (set_opc (pc s) s') = Ok n (set_opc (pc s) s') ->
+    step s = Ok n (set_opc (pc s) s').
+Proof. exact step_jsr_ind_proof. Qed.
+
 Print Assumptions cond_table.
 Print Assumptions call_rts_inverse.
 Print Assumptions bcc8_refines.
@@ -201,3 +214,4 @@ Print Assumptions step_jmp_ind.
 Print Assumptions step_bsr8.
 Print Assumptions step_jsr_ern.
 Print Assumptions step_rts.
+Print Assumptions step_jsr_ind.
